@@ -231,6 +231,8 @@ class C07(Prop):
                 'before': before, 'main': main, 'after': after}
         if cassette == 's3' and rng.random() < 0.5:
             case['sampled'] = True
+        if cassette == 's3' and rng.random() < 0.4:
+            case['ia'] = rng.choice([0.001, 0.25, 10 ** 6])      # recordings at least this large go to the infrequent-access class
         main_id = recording_id(case, main)
         unknown = ['nope', main_id + 'x', main_id[:-1], '%s/%s' % (main['category'], _hex(7)), '']
         if cassette == 's3':
@@ -333,7 +335,8 @@ class C07(Prop):
                 # (ratio just below 1: every draw of the cassette's seeded generator is within it): what is stored for a kept
                 # recording is what was saved
                 calc = (lambda category, size, recording: 0.999999999) if case.get('sampled') else None
-                cassette = s3mod.S3TapeCassette('verif-bucket', key_prefix=case['prefix'], read_only=False, sampling_calculator=calc)
+                cassette = s3mod.S3TapeCassette('verif-bucket', key_prefix=case['prefix'], read_only=False, sampling_calculator=calc,
+                                                 infrequent_access_kb_threshold=case.get('ia'))
             return self.drive(case, cassette, tmp)
         finally:
             uuid.uuid1 = real_uuid1
